@@ -19,7 +19,8 @@ recovery. In range_query the cursor starts at lower_bound(Included(start_key)), 
 other error is returned. Not decided: completeness under concurrent churn.
 """
 DECIDED = ['the ordered-index slot / node receives the same record as the hash entry at every publication site', "hash index / ordered index pairing under the bucket guard, tree-first removal", "in-place slot swap on update",
-           "inclusive bounds and limit test of the scan; stale entries skipped, other errors returned"]
+           "inclusive bounds and limit test of the scan; stale entries skipped, other errors returned",
+           "range scan: key resolved = key pushed = this entry's key; record = this entry's slot"]
 NOT_DECIDED = ["completeness / no duplicates under concurrent writers (schedules)", "values returned are current (tier behaviour)"]
 ASSUMPTIONS = ["crossbeam SkipMap iteration is ordered by key (library contract)"]
 
